@@ -596,9 +596,25 @@ func (nc *Conn) PublishRequest(subj, reply string, data []byte) error {
 	return nc.publish(subj, reply, data)
 }
 
+// PublishHook, when set, is called at the start of every publish on the publishing goroutine, before
+// the message is routed (harness use: a scheduling point at the moment a reply leaves the store).
+var publishHook atomic.Pointer[func(nc *Conn, subj string)]
+
+// SetPublishHook installs (or, with nil, removes) the publish hook.
+func SetPublishHook(f func(nc *Conn, subj string)) {
+	if f == nil {
+		publishHook.Store(nil)
+		return
+	}
+	publishHook.Store(&f)
+}
+
 func (nc *Conn) publish(subj, reply string, data []byte) error {
 	if nc == nil {
 		return ErrInvalidConnection
+	}
+	if h := publishHook.Load(); h != nil {
+		(*h)(nc, subj)
 	}
 	if nc.closed.Load() {
 		return ErrConnectionClosed
